@@ -3,7 +3,7 @@ import numpy as np
 from hypothesis import strategies as st
 
 from vf import gen, quant
-from vf.core import Verdict, lib, mk_basis, nfunc
+from vf.core import Verdict, case_hash, lib, mk_basis, nfunc
 from vf.props.c09 import env_st
 from vf.ref import r3, r6
 from vf.run import SubCheck
@@ -60,14 +60,15 @@ def mv(x, Q, t):
 
 def judge(case):
     shells = case["shells"]
-    env = dict(case["env"])
+    # the original system's points in a caller's array form (layout, integer grid, float32 grid); the moved points are plain float64
+    env, form = quant.with_point_form(dict(case["env"]), int(case_hash({"s": case["shells"], "p": case["env"]["points"]}), 16))
     Q, exact = motion(case)
     t = np.array(case["t"], dtype=float)
     det = float(np.round(np.linalg.det(Q)))
     v = Verdict(classes=["signed-permutation" if exact else "general-orthogonal", "det%+d" % det,
-                         "translated" if np.any(t != 0) else "origin-fixed"])
+                         "translated" if np.any(t != 0) else "origin-fixed", "points-" + form])
     moved = [dict(s, coord=mv([s["coord"]], Q, t)[0]) for s in shells]
-    env2 = dict(env, points=mv(env["points"], Q, t), nuc_coords=mv(env["nuc_coords"], Q, t), origin=mv([env["origin"]], Q, t)[0])
+    env2 = dict(env, points_form=None, points=mv(env["points"], Q, t), nuc_coords=mv(env["nuc_coords"], Q, t), origin=mv([env["origin"]], Q, t)[0])
     changed = any(sum(abs(a - b) > 1e-12 for a, b in zip(s["coord"], m["coord"])) >= 2 for s, m in zip(shells, moved))
     v.nontrivial = changed and max(s["l"] for s in shells) >= 2
     R = r3.refs(shells)
